@@ -259,7 +259,17 @@ func c08(c *core.Ctx) {
 			c.Check("RunContext.flush:Write≺Sync#"+string(rune('a'+i)), "order", ok, w.Pos(), "every write of context.data precedes the sync")
 		}
 		mustCall(c, fn, sync, nil)
-		propagated(c, c.Fn(st+".RunContext.Flush"), 1, c.Method(st+".RunContext", "flush"))
+		// Flush hands flush's error on and does not report success without the file having been replaced. The call may sit in a same-package
+		// helper; a skip is accepted only under a dirty flag that every writer of the candidate cache raises.
+		flushFn := c.Fn(st + ".RunContext.Flush")
+		flushM := c.Method(st+".RunContext", "flush")
+		propagatedDeep(c, flushFn, flushM, 3)
+		var state []*types.Var
+		cst := c.Struct(st + ".CandidateCache")
+		for i := 0; i < cst.NumFields(); i++ {
+			state = append(state, cst.Field(i))
+		}
+		writtenOrFlagged(c, "RunContext.Flush:success⇒context.data-replaced", flushFn, flushM, state, c.Fn(st+".RunContext.load"))
 	})
 
 	// -----------------------------------------------------------------------------------------------------------------
